@@ -276,6 +276,28 @@ struct ExtEvent {
 
 vf::Result check(const Case& cs) {
     Sys& s = sys();
+    if (!cs.empty() && (cs[0].fill_seed & 3) == 0) {
+        // what an earlier use of the machine may leave behind: a burst read that ended inside a burst (prefetched units still queued
+        // in the bridge). The Reset() that starts the case proper makes the machine a fresh one (C17), so nothing of it may show
+        vf::klass("case preceded by a transfer that ended inside a burst, then Reset");
+        const unsigned k = (unsigned)((cs[0].fill_seed >> 2) % 3), ch = (unsigned)((cs[0].fill_seed >> 4) % 8), dw = (unsigned)((cs[0].fill_seed >> 7) & 1);
+        auto W0 = [&](uint16_t off, uint16_t v) { s.t->MMIOWrite(off, v); };
+        W0((uint16_t)(0x0E2 + 6 * k), (uint16_t)(((dw ? 2 : 1) << 4) | ((1 + ((cs[0].fill_seed >> 8) & 1)) << 1)));
+        W0((uint16_t)(0x0E4 + 6 * k), 0);
+        W0((uint16_t)(0x0E6 + 6 * k), (uint16_t)(1u << ch));
+        W0(0x1BE, (uint16_t)ch);
+        W0(0x1C0, 0x0100);
+        W0(0x1C2, 0x1000);
+        W0(0x1C4, 0x7000);
+        W0(0x1C6, 0);
+        W0(0x1C8, (uint16_t)(dw ? 6 : 3));
+        W0(0x1CA, 1);
+        W0(0x1CC, 1);
+        W0(0x1CE, (uint16_t)(dw ? 4 : 2));
+        W0(0x1D0, (uint16_t)(dw ? 2 : 1));
+        W0(0x1DA, (uint16_t)(7 | (dw ? 0x0400 : 0)));
+        s.guarded([&] { s.t->MMIOWrite(0x1DE, 0x40C0); });
+    }
     s.t->Reset();
     s.log.clear();
     s.ext.bytes.clear();
